@@ -146,11 +146,22 @@ def D123(F, rep):
     rep.ob('D3', 'switch|exhaustive', not missing and not has_default and sw.get('allEnumCasesCovered'), rep.fn_site(fn, sw['l']),
            'createObject: the switch covers all %d enumerators explicitly and has no default' % len(names) if not missing and not has_default else
            'createObject: %s' % ('default label present' if has_default else 'enumerators without a case: ' + ', '.join(missing)), nontrivial=True)
+    # D3b: the switch dispatches on the parameter itself - a narrowing conversion in front of it aliases foreign codes
+    rep.count('D3')
+    c = sw['cond']
+    narrowed = [x for x in walk(c) if x.get('k') == 'Cast' and x.get('style') != 'implicit']
+    cref = strip_all_casts(c)
+    is_param = isinstance(cref, dict) and cref.get('k') == 'Ref' and cref.get('dk') == 'parm'
+    rep.ob('D3', 'switch|operand', is_param and not narrowed, rep.fn_site(fn, sw['l']),
+           'createObject switches on its parameter unconverted' if is_param and not narrowed else
+           'createObject switches on a converted / derived value (%s): codes outside the enumeration may alias assigned ones' %
+           (', '.join(x.get('t', '?') for x in narrowed) or 'not the parameter'), nontrivial=True)
     # D2: null initialiser, returned unchanged for codes without a class
     rep.count('D2')
     init_null = rv is not None and strip_all_casts(rv.get('init') or {}).get('lit') == 'null'
     rets = [n for n in walk(fn['body']) if n.get('k') == 'Return']
-    ret_ok = len(rets) == 1 and strip_all_casts(rets[0].get('value') or {}).get('id') == (rv or {}).get('id')
+    ret_ok = bool(rets) and all(strip_all_casts(r_.get('value') or {}).get('id') == (rv or {}).get('id') or
+                                strip_all_casts(r_.get('value') or {}).get('lit') == 'null' for r_ in rets)
     rep.ob('D2', 'result|null-init', init_null and ret_ok, rep.fn_site(fn),
            'createObject returns a variable initialised to nullptr (so any value outside the enumeration, 0..2^32-1, yields nothing)' if init_null and ret_ok
            else 'createObject result variable is not null-initialised / not the single returned value', nontrivial=True)
